@@ -14,7 +14,7 @@ evaluation of `loadRef ∘ render`), the universally quantified statement is the
 which re-evaluates `loadRef (render s) = ok s.trees` on every generated stream.
 -/
 import SuccinctlyVerif.Proof.YamlRoundTrip
-import SuccinctlyVerif.Proof.YamlBlock
+import SuccinctlyVerif.Proof.YamlRefBlock
 import SuccinctlyVerif.Proof.YamlFamilies
 namespace SV.Props.C14
 open SV SV.YamlRef
